@@ -16,11 +16,11 @@ import (
 func init() {
 	Register(&Rule{
 		ID: "C21", Section: "5 C21",
-		Technique: "must-held lock sets (guarded-by p.mu) over every Pipe field access incl. dereferences of the *error handed to closeWithError, condition-variable rules (Wait inside a cycle that re-tests every predicate, Signal on every path after a predicate change, Locker initialised before use), guard/dominance rules for the order of the three tests in Pipe.Read, error forwarding of PipeBuffer.Write, nil-buffer guards, cursor/copy agreement in FixedBuffer, census of Release callers",
+		Technique: "must-held lock sets (guarded-by p.mu) over every Pipe field access incl. dereferences of the *error handed to closeWithError, condition-variable rules (Wait inside a cycle that re-tests every predicate, Signal on every path after a predicate change, Locker initialised before use), guard/dominance rules for the order of the three tests in Pipe.Read, error forwarding of PipeBuffer.Write, nil-buffer guards, cursor/copy agreement in FixedBuffer incl. the slide copy, forward value slices of guarded-field reads against paths from Cond.Wait (stale snapshot), pool hand-back discipline (reset, no use after Put, reference cleared), census of Release callers",
 		Meta: core.Meta{
 			Level:       "other",
-			Explanation: "Decides: (a) every access of Pipe.b/err/breakErr/donec/readFn/c.L in package pipe (including `*dst` inside closeWithError, whose callers pass &p.err / &p.breakErr) happens with p.mu held, closeDoneLocked is only called with p.mu held, objects under construction exempt; (b) Cond.Wait is called with the lock held, inside a cycle on which the breakErr test, the buffered-data test and the err test all lie, and no return is reachable from Wait without re-testing breakErr; c.L is set to &p.mu before any Wait/Signal; every function that writes err/breakErr (via dst) or writes into the buffer signals the condition on every path to its exit; (c) in Pipe.Read the buffered data is returned only when breakErr is nil, p.err is returned only when breakErr is nil and the buffer is nil or empty, the break return yields (0, breakErr), the data return forwards PipeBuffer.Read, Wait is reached only with err == nil, breakErr == nil and no data; Err() prefers breakErr; (d) Pipe.Write writes only when err == nil and b != nil, forwards both results of PipeBuffer.Write unchanged, every other return is (0, non-nil error); FixedBuffer.Write reports errWriteFull unless copy took all of p; (e) every method call on p.b outside Release is guarded by p.b != nil; every caller of Pipe.Release closes the pipe (CloseWithError/BreakWithError on the same pipe) first; closeWithError stores only a non-nil error, only over nil or io.EOF, and CloseWithError/BreakWithError target err/breakErr respectively; donec is closed only in closeDoneLocked under a nil check; (f) FixedBuffer.Read/Write advance r/w by exactly the copy count, copy from buf[r:w] / into buf[w:], return that count, Len is w-r, and r is reset to 0 only together with w (w = 0 or w -= r). Not covered: FixedBuffer's slide arithmetic, exactly-once delivery over histories, a second Release on the same pipe (p.b is nil then and Release dereferences it — callers are checked to release once per close path only by dominance, not by history), fairness of Signal (one waiter assumed).",
-			RuleText:    "obligations = each (function, Pipe field) access set, each Wait/Signal site, each return of Pipe.Read/Write/Err, each store through closeWithError's dst, each buffer method call, each Release call site in the module, the cursor updates of FixedBuffer",
+			Explanation: "Decides: (a) every access of Pipe.b/err/breakErr/donec/readFn/c.L in package pipe (including `*dst` inside closeWithError, whose callers pass &p.err / &p.breakErr) happens with p.mu held, closeDoneLocked is only called with p.mu held, objects under construction exempt; (b) Cond.Wait is called with the lock held, inside a cycle on which the breakErr test, the buffered-data test and the err test all lie, and no return is reachable from Wait without re-testing breakErr; c.L is set to &p.mu before any Wait/Signal; every function that writes err/breakErr (via dst) or writes into the buffer signals the condition on every path to its exit; (c) in Pipe.Read the buffered data is returned only when breakErr is nil, p.err is returned only when breakErr is nil and the buffer is nil or empty, the break return yields (0, breakErr), the data return forwards PipeBuffer.Read, Wait is reached only with err == nil, breakErr == nil and no data; Err() prefers breakErr; (d) Pipe.Write writes only when err == nil and b != nil, forwards both results of PipeBuffer.Write unchanged, every other return is (0, non-nil error); FixedBuffer.Write reports errWriteFull unless copy took all of p; (e) every method call on p.b outside Release is guarded by p.b != nil; every caller of Pipe.Release closes the pipe (CloseWithError/BreakWithError on the same pipe) first; closeWithError stores only a non-nil error, only over nil or io.EOF, and CloseWithError/BreakWithError target err/breakErr respectively; donec is closed only in closeDoneLocked under a nil check; (f) FixedBuffer.Read/Write advance r/w by exactly the copy count, copy from buf[r:w] / into buf[w:], return that count, Len is w-r, and r is reset to 0 only together with w (w = 0 or w -= r).; (g) every slide (w -= r together with r = 0) is preceded by a copy within buf whose source is buf[r:] / buf[r:w] and whose destination starts at buf[0] and is not capped (no upper bound, or len(buf), w, w-r); (h) in every function that gives up p.mu in the middle (Cond.Wait, explicit Unlock), no value computed from a read of b/err/breakErr/readFn/donec is used on a path coming from that point without the field being read again (no stale snapshot of the buffer or of the close state across Wait); (i) a buffer put into a sync.Pool was Reset() before, Pipe.b is set to nil on every path after the Put and nothing touches the buffer between Put and that store. Not covered: when a slide is triggered (the `r > 0 && len(p) > free` condition only affects whether a fitting write is refused), exactly-once delivery over histories, a second Release on the same pipe (p.b is nil then and Release dereferences it — callers are checked to release once per close path only by dominance, not by history), fairness of Signal (one waiter assumed).",
+			RuleText:    "obligations = each (function, Pipe field) access set, each Wait/Signal site, each return of Pipe.Read/Write/Err, each store through closeWithError's dst, each buffer method call, each Release call site in the module, the cursor updates and slides of FixedBuffer, each (function with a Wait, guarded field) pair, each sync.Pool.Put of the pipe buffer",
 			Assumptions: []string{"at most one goroutine waits in Pipe.Read per pipe (Signal, not Broadcast)", "sync.Mutex/sync.Cond semantics"},
 		},
 		Run: runC21,
@@ -43,6 +43,15 @@ func init() {
 			{Name: "break-targets-err", File: "bfe_util/pipe/pipe.go", Old: "func (p *Pipe) BreakWithError(err error) { p.closeWithError(&p.breakErr, err, nil) }", New: "func (p *Pipe) BreakWithError(err error) { p.closeWithError(&p.err, err, nil) }", Expect: "close-target|Pipe.BreakWithError"},
 			{Name: "close-overwrites-first-error", File: "bfe_util/pipe/pipe.go", Old: "		if *dst == io.EOF {\n			*dst = err\n		}", New: "		*dst = err", Expect: "close-store"},
 			{Name: "cond-locker-init-dropped", File: "bfe_util/pipe/pipe.go", Old: "	if p.c.L == nil {\n		p.c.L = &p.mu\n	}\n	for {", New: "	for {", Expect: "cond-locker|Pipe.Read"},
+			{Name: "slide-copy-dropped", File: "bfe_util/pipe/fixed_buffer.go", Old: "		copy(b.buf, b.buf[b.r:b.w])\n", New: "", Expect: "fb-slide|FixedBuffer.Write"},
+			{Name: "slide-source-from-zero", File: "bfe_util/pipe/fixed_buffer.go", Old: "		copy(b.buf, b.buf[b.r:b.w])\n", New: "		copy(b.buf, b.buf[:b.w])\n", Expect: "fb-slide|FixedBuffer.Write"},
+			{Name: "slide-destination-capped-at-free-space", File: "bfe_util/pipe/fixed_buffer.go", Old: "		copy(b.buf, b.buf[b.r:b.w])\n", New: "		copy(b.buf[:len(b.buf)-b.w], b.buf[b.r:b.w])\n", Expect: "fb-slide|FixedBuffer.Write"},
+			{Name: "read-caches-err-before-wait", File: "bfe_util/pipe/pipe.go", Old: "	for {\n		if p.breakErr != nil {\n			return 0, p.breakErr\n		}\n		if p.b != nil && p.b.Len() > 0 {\n			return p.b.Read(d)\n		}\n		if p.err != nil {\n			if p.readFn != nil {", New: "	closed := p.err\n	for {\n		if p.breakErr != nil {\n			return 0, p.breakErr\n		}\n		if p.b != nil && p.b.Len() > 0 {\n			return p.b.Read(d)\n		}\n		if closed != nil {\n			if p.readFn != nil {", Expect: "fresh-after-wait|Pipe.Read:err"},
+			{Name: "read-caches-buffer-length-before-wait", File: "bfe_util/pipe/pipe.go", Old: "	for {\n		if p.breakErr != nil {\n			return 0, p.breakErr\n		}\n		if p.b != nil && p.b.Len() > 0 {\n			return p.b.Read(d)\n		}\n", New: "	pending := p.b != nil && p.b.Len() > 0\n	for {\n		if p.breakErr != nil {\n			return 0, p.breakErr\n		}\n		if p.b != nil && (pending || p.b.Len() > 0) {\n			return p.b.Read(d)\n		}\n", Expect: "fresh-after-wait|Pipe.Read:b"},
+			{Name: "release-resets-after-put", File: "bfe_util/pipe/pipe.go", Old: "	p.b.Reset()\n	pool.Put(p.b)\n	p.b = nil", New: "	pool.Put(p.b)\n	p.b.Reset()\n	p.b = nil", Expect: "pool-release|Pipe.Release:put#1:no-use-after-put"},
+			{Name: "release-keeps-buffer-reference", File: "bfe_util/pipe/pipe.go", Old: "	p.b.Reset()\n	pool.Put(p.b)\n	p.b = nil", New: "	p.b.Reset()\n	pool.Put(p.b)", Expect: "pool-release|Pipe.Release:put#1:cleared"},
+			{Name: "silent-buffer-local-inside-loop", File: "bfe_util/pipe/pipe.go", Old: "		if p.b != nil && p.b.Len() > 0 {\n			return p.b.Read(d)\n		}\n		if p.err != nil {", New: "		buf := p.b\n		if buf != nil && buf.Len() > 0 {\n			return buf.Read(d)\n		}\n		if p.err != nil {", Silent: true},
+			{Name: "silent-slide-explicit-bounds", File: "bfe_util/pipe/fixed_buffer.go", Old: "		copy(b.buf, b.buf[b.r:b.w])\n", New: "		unread := b.buf[b.r:b.w]\n		copy(b.buf[0:], unread)\n", Silent: true},
 			{Name: "silent-locker-helper", File: "bfe_util/pipe/pipe.go", Old: "\tif p.c.L == nil {\n\t\tp.c.L = &p.mu\n\t}\n\tfor {\n\t\tif p.breakErr != nil {\n\t\t\treturn 0, p.breakErr\n\t\t}\n\t\tif p.b != nil && p.b.Len() > 0 {\n\t\t\treturn p.b.Read(d)\n\t\t}\n\t\tif p.err != nil {\n\t\t\tif p.readFn != nil {\n\t\t\t\tp.readFn()     // e.g. copy trailers\n\t\t\t\tp.readFn = nil // not sticky like p.err\n\t\t\t}\n\t\t\treturn 0, p.err\n\t\t}\n\t\tp.c.Wait()\n\t}\n}\n", New: "\tp.initCond()\n\tfor {\n\t\tif p.breakErr != nil {\n\t\t\treturn 0, p.breakErr\n\t\t}\n\t\tif p.b != nil && p.b.Len() > 0 {\n\t\t\treturn p.b.Read(d)\n\t\t}\n\t\tif p.err != nil {\n\t\t\tif p.readFn != nil {\n\t\t\t\tp.readFn()     // e.g. copy trailers\n\t\t\t\tp.readFn = nil // not sticky like p.err\n\t\t\t}\n\t\t\treturn 0, p.err\n\t\t}\n\t\tp.c.Wait()\n\t}\n}\n\nfunc (p *Pipe) initCond() {\n\tif p.c.L == nil {\n\t\tp.c.L = &p.mu\n\t}\n}\n", Silent: true},
 			{Name: "silent-extract-helper", File: "bfe_util/pipe/pipe.go", Old: "func (p *Pipe) Err() error {\n	p.mu.Lock()\n	defer p.mu.Unlock()\n	if p.breakErr != nil {\n		return p.breakErr\n	}\n	return p.err\n}", New: "func (p *Pipe) Err() error {\n	p.mu.Lock()\n	defer p.mu.Unlock()\n	first := p.breakErr\n	if first != nil {\n		return first\n	}\n	closed := p.err\n	return closed\n}", Silent: true},
 		},
@@ -938,7 +947,57 @@ func runC21(c *core.Ctx) {
 			}
 		}
 		c.Min("fb-rebase", 3)
+		// sliding: the unread region is moved as a whole before the cursors are rebased
+		for _, fn := range pkgFns {
+			if fn.Signature.Recv() == nil || c21TypeName(fn.Signature.Recv().Type()) != "FixedBuffer" {
+				continue
+			}
+			for i, s := range uuSlideChecks(fn, bufF, rF, wF) {
+				c.Check("fb-slide", fmt.Sprintf("%s:slide#%d", short(fn), i+1), s.pos, s.ok, short(fn)+" rebases the cursors (w -= r, r = 0) but "+s.detail+": the pipe would deliver bytes twice / out of order and lose others")
+			}
+		}
+		c.Min("fb-slide", 1)
 	}
+
+	// ------------------------------------------------------------ (g) no stale snapshot across Wait, pool discipline
+	// points where p.mu is given up in the middle of a function: Cond.Wait, an
+	// explicit (not deferred) Unlock, and calls of package functions that do so
+	releasing := map[*ssa.Function]bool{}
+	isRelease := func(in ssa.Instruction) bool {
+		call, ok := in.(*ssa.Call)
+		if !ok {
+			return false
+		}
+		if condCall(in, "Wait") {
+			return true
+		}
+		if core.CallIs(&call.Call, "sync.Mutex.Unlock") && len(call.Call.Args) == 1 {
+			f, _ := uuFieldAddr(call.Call.Args[0])
+			return f == muF
+		}
+		if sc := call.Call.StaticCallee(); sc != nil && releasing[sc] {
+			return true
+		}
+		return false
+	}
+	for changed := true; changed; {
+		changed = false
+		for _, fn := range pkgFns {
+			if releasing[fn] {
+				continue
+			}
+			for _, in := range uuInstrs(fn) {
+				if isRelease(in) {
+					releasing[fn], changed = true, true
+					break
+				}
+			}
+		}
+	}
+	c21FreshAfterWait(c, pkgFns, []*types.Var{bF, errF, brkF, fnF, doneF}, isRelease, short)
+	c.Min("fresh-after-wait", 3)
+	c21PoolRelease(c, pkgFns, bF, short)
+	c.Min("pool-release", 3)
 	_, _, _ = nGuarded, nCdl, nSig
 	_ = nRel
 }
